@@ -244,6 +244,7 @@ func run(c *evid.Case) {
 	lg := zap.NewNop()
 
 	var hist []string
+	var ownOut [][]byte // everything the reference instance broadcast so far
 	diverged := false
 	accepted := 0
 	seenEnc := map[string]bool{}
@@ -296,6 +297,7 @@ func run(c *evid.Case) {
 				report(idx, in, "N", "timer-height", fmt.Sprintf("armed for height %d, instance height %d", h, cfg.Height), decidedBefore, isReplay)
 			}
 		}
+		ownOut = append(ownOut, rNet.out...)
 		rNet.out, nNet.out, cNet.out = nil, nil, nil
 		rTim.arms, nTim.arms, cTim.arms, nTim.heights, cTim.heights = nil, nil, nil, nil, nil
 		rr, _ := R.State.GetRoot()
@@ -311,7 +313,77 @@ func run(c *evid.Case) {
 	}
 	cmpOut(-1, input{kind: qsim.InTimeout, note: "start"}, false, false)
 
-	for idx, in := range ins {
+	// state-aware bursts: at seed-chosen points a quorum-sized burst of crafted, correctly signed messages aimed at the
+	// reference instance's CURRENT round is spliced into the stream (round-changes for the current or next round from
+	// distinct other operators, prepares / commits for the accepted or another root, the node's own earlier proposal looped
+	// back): orders that an honest trace never produces, e.g. a round-change quorum completing after a proposal was accepted.
+	burst := func() []input {
+		st := R.State
+		var out []input
+		others := []spectypes.OperatorID{}
+		for id := spectypes.OperatorID(1); int(id) <= cfg.N; id++ {
+			if id != target.ID {
+				others = append(others, id)
+			}
+		}
+		rng.Shuffle(len(others), func(i, j int) { others[i], others[j] = others[j], others[i] })
+		k := int(share.Quorum)
+		if k > len(others) {
+			k = len(others)
+		}
+		mk := func(id spectypes.OperatorID, m *specqbft.Message, full []byte) input {
+			m.Height, m.Identifier = cfg.Height, cl.ID
+			sm := qsim.Sign(cl.KS, id, m)
+			sm.FullData = full
+			return input{kind: qsim.InMsg, msg: sm, note: "burst"}
+		}
+		switch rng.Intn(5) {
+		case 0, 1: // round-change quorum for the current (or next) round
+			r := st.Round + specqbft.Round(rng.Intn(2))
+			for _, id := range others[:k] {
+				out = append(out, mk(id, &specqbft.Message{MsgType: specqbft.RoundChangeMsgType, Round: r}, nil))
+			}
+		case 2: // prepares for the accepted proposal's root (or another root)
+			root := qsim.Root([]byte("V9-burst"))
+			if st.ProposalAcceptedForCurrentRound != nil && rng.Intn(4) != 0 {
+				root = st.ProposalAcceptedForCurrentRound.Message.Root
+			}
+			for _, id := range others[:k] {
+				out = append(out, mk(id, &specqbft.Message{MsgType: specqbft.PrepareMsgType, Round: st.Round, Root: root}, nil))
+			}
+		case 3: // commits
+			root := qsim.Root([]byte("V9-burst"))
+			if st.ProposalAcceptedForCurrentRound != nil && rng.Intn(4) != 0 {
+				root = st.ProposalAcceptedForCurrentRound.Message.Root
+			}
+			for _, id := range others[:k] {
+				out = append(out, mk(id, &specqbft.Message{MsgType: specqbft.CommitMsgType, Round: st.Round, Root: root}, nil))
+			}
+		default: // the node's own earlier broadcasts looped back (its proposal first), then a round-change quorum for that round
+			for _, b := range ownOut {
+				m := &specqbft.SignedMessage{}
+				if len(b) > 57 && m.Decode(b[57:]) == nil && m.Message.MsgType == specqbft.ProposalMsgType {
+					out = append(out, input{kind: qsim.InMsg, msg: m, note: "burst-own-proposal"})
+					for _, id := range others[:k] {
+						out = append(out, mk(id, &specqbft.Message{MsgType: specqbft.RoundChangeMsgType, Round: m.Message.Round}, nil))
+					}
+					break
+				}
+			}
+		}
+		return out
+	}
+	queue := append([]input{}, ins...)
+	for idx := 0; len(queue) > 0 && idx < 400; idx++ {
+		if rng.Intn(14) == 0 {
+			queue = append(burst(), queue...)
+			c.Count("bursts_spliced", 1)
+			if len(queue) == 0 {
+				break
+			}
+		}
+		in := queue[0]
+		queue = queue[1:]
 		if diverged {
 			break
 		}
